@@ -23,8 +23,10 @@ def hook_calls(body, trait_path):
             if k == 'mcall' and (n.get('callee') or '').startswith(trait_path + '::visit_'):
                 out.append((n['name'], n['args'][-1] if n.get('args') else None, in_loop, n))
             il = in_loop or k == 'loop'
-            for v in n.values():
-                rec(v, il)
+            # `iter.for_each(|x| v.visit_x(x))` is the loop written as an adaptor: the closure runs once per element
+            per_elem_closure = k == 'mcall' and n.get('name') in ('for_each', 'try_for_each')
+            for key, v in n.items():
+                rec(v, il or (per_elem_closure and key == 'args'))
         elif isinstance(n, list):
             for v in n:
                 rec(v, in_loop)
